@@ -38,6 +38,21 @@ reg(
     "DESIGN.md §3 C08",
 )
 
+reg(
+    "C05", "exploration",
+    "runtime monitor with exhaustive enumeration of the interpreter's random tie-breaks (stateless DFS over decision scripts) vs. an argmax model",
+    "Generated programs of 2-5 competing flows (all specificity vectors for n<=3; random priorities, loops, shared/distinct actions with arguments, non-fitting values); for each program EVERY outcome of every random.choice is executed. Oracle per loop: winners = argmax of priority*0.9^unmentioned; one distinct action started once; co-winners finished, losers stopped, non-fitting flows untouched and still reacting to a later fitting event; over the enumeration the observed winner set must equal the argmax set. Held on the executions observed.",
+    "trusts the key formula mirrored from the documentation (float expression order as in the interpreter, near-ties not generated) and ControlledRandom replacing statemachine.random",
+    "DESIGN.md §3 C05",
+)
+reg(
+    "C09", "exploration",
+    "invariant at a hook: from-scratch scan of the State after every run_to_completion vs. the incremental dispatch index",
+    "After every run_to_completion (both bindings) a from-scratch scan checks: no pending internal event; every listening flow's active heads are on match/WaitForHeads; no MERGING head left; ended instances hold no heads; no dangling child/action/flow-variable reference; event_matching_heads == scanned set (no missing, stale, duplicate entry, right event name); reverse map == inverse; flow_id_states == grouping. ~4e4 states (thorough ~1e6) from generated hierarchies, exhaustive 3-letter histories, and/or formulas, call-binding and conflict programs and the shipped library under UMIM streams. Held on the states observed.",
+    "trusts the scan (uses the repo's is_match_op_element/get_event_name_from_element but never the index); states only reachable through ungenerated constructs are not covered",
+    "DESIGN.md §3 C09",
+)
+
 NOT_BUILT_REASON = "check not built yet in this revision (claimed by DESIGN.md; see §5 order of work)"
 
 
